@@ -222,3 +222,8 @@ func (s *Schema) json() []byte {
 }
 
 var fitEpoch = time.Date(1989, time.December, 31, 0, 0, 0, 0, time.UTC)
+
+func newFileErr(t int) error {
+	_, err := fit.NewFile(fit.FileType(t), fit.NewHeader(fit.V10, false))
+	return err
+}
